@@ -16,7 +16,7 @@
    Restrictions of the statement: no -j on a dependency line, no --just, no --max-depth, no keep in the VRO. *)
 From Eupsv Require Import Base.Base Base.BaseLemmas Model.PathAlg Proofs.PathAlg Model.Setup Proofs.SetupFrame
      Proofs.SetupInv Model.Resolve Model.ResolveSpec Proofs.ResolveLib Proofs.Resolve Model.SetupFull
-     Proofs.SetupFull Proofs.SetupFullKeep Proofs.SetupFullResolve.
+     Proofs.SetupFull Proofs.SetupFullKeep Proofs.SetupFullResolve Proofs.SetupOwn.
 From Coq Require Import Lia.
 
 Lemma touches_none_trans w a b c : touches w None a b -> touches w None b c -> touches w None a c.
@@ -37,6 +37,7 @@ Variable rank : str -> nat.
 Variable vro : list entry.
 Variable top : str.
 Variable D : str -> option str.
+Variable Z : str -> Prop.               (* the aliases whose accounting is followed (C02); none for C01 *)
 
 Notation w := (fw_products fw).
 Notation full := (setup_full vcmp vmatch fw cfg rc flavors).
@@ -102,9 +103,19 @@ Definition W2 (open : str -> Prop) (e : amap str) : Prop :=
 Definition al_ok (al : already) : Prop :=
   forall n fd r, reachN n -> alookup n al = Some (fd, r) -> D n = Some (fd_version fd).
 
+(* the aliases of Z that tables of reachable products define are defined only while such a product is recorded *)
+Definition AJ (st : state) : Prop := alias_acc w reachN Z (fun _ => False) st.
+
+Lemma AJ_env st st' : s_aliases st' = s_aliases st -> retains (s_env st) (s_env st') -> AJ st -> AJ st'.
+Proof.
+  intros EA Ret A k v Zk E O. rewrite EA in E. destruct (A k v Zk E O) as [[]|[n [q [v' [Rn [Rq Hin]]]]]].
+  right. exists n, q, v'. split; [assumption|]. split; [now apply Ret|assumption].
+Qed.
+
 Definition call_post (open : str -> Prop) (st : state) (m : str) (r : fresult) : Prop :=
   match r with
   | FDone true st' al' _ =>
+      AJ st' /\
       sets_up m /\ W1 (s_env st') /\ W2 open (s_env st') /\ al_ok al' /\ retains (s_env st) (s_env st') /\
       (exists q, recorded (s_env st') m q) /\ nodollar_paths w (s_env st') /\
       (forall k q, recorded (s_env st') k q -> recorded (s_env st) k q \/ reach_ok m k)
@@ -119,7 +130,7 @@ Proof. destruct r as [[|] st' al' tr|st' al' tr|tr|tr]; exact (fun x => x). Qed.
 Definition clos_fn (frec : full_fn) : Prop :=
   forall (open : str -> Prop) st al m li d,
     reachN m -> (forall n, open n -> rank m < rank n) -> nodollar_paths w (s_env st) ->
-    W1 (s_env st) -> W2 open (s_env st) -> al_ok al -> desig 1 m li = D m ->
+    W1 (s_env st) -> W2 open (s_env st) -> al_ok al -> desig 1 m li = D m -> AJ st ->
     call_post open st m (frec st al vro m li true (S d) false).
 
 (* ---------------------------------------------------------------- the resolver gives the assigned version *)
@@ -190,6 +201,7 @@ Qed.
 Definition run_post (open : str -> Prop) (m : str) (acts : list action) (st : state) (r : fresult) : Prop :=
   match r with
   | FDone true st' al' _ =>
+      AJ st' /\
       W1 (s_env st') /\ W2 (fun n => open n \/ n = m) (s_env st') /\ al_ok al' /\
       retains (s_env st) (s_env st') /\ nodollar_paths w (s_env st') /\
       (forall o x j, In (ASetup o x j) acts ->
@@ -214,7 +226,7 @@ Lemma run_post_cons (open : str -> Prop) m a acts st st1 r :
   run_post open m acts st1 r -> run_post open m (a :: acts) st r.
 Proof.
   intros Ret New Line. destruct r as [[|] st' al' tr|st' al' tr|tr|tr]; cbn [run_post]; auto.
-  - intros [A [B [C [R' [Dn [L N]]]]]]. split; [assumption|]. split; [assumption|]. split; [assumption|].
+  - intros [A0 [A [B [C [R' [Dn [L N]]]]]]]. split; [assumption|]. split; [assumption|]. split; [assumption|]. split; [assumption|].
     split; [exact (retains_trans fw _ _ _ Ret R')|]. split; [assumption|]. split.
     + intros o x j [->|Hin]; [|exact (L o x j Hin)]. destruct (Line o x j eq_refl) as [L1 L2]. split; [assumption|].
       intro Sx. destruct (L2 Sx) as [q Rq]. exists q. now apply R'.
@@ -230,11 +242,11 @@ Lemma run_clos frec (open : str -> Prop) m p depth :
   clos_fn frec -> has_name w m p -> reachN m -> (forall n, open n -> rank m < rank n) ->
   forall acts infos, (forall a, In a acts -> In a (p_actions p)) -> lines_ok acts infos ->
   forall st al, nodollar_paths w (s_env st) -> W1 (s_env st) -> W2 (fun n => open n \/ n = m) (s_env st) ->
-                al_ok al ->
+                al_ok al -> recorded (s_env st) m p -> AJ st ->
     run_post open m acts st (run_full frec true depth false vro acts infos st al).
 Proof.
-  intros HC Hp Rm Hrank. induction acts as [|a acts IH]; intros infos Hsub HL st al Hnd HW1 HW2 HA.
-  - cbn [run_actions_full run_post]. split; [assumption|]. split; [assumption|]. split; [assumption|].
+  intros HC Hp Rm Hrank. induction acts as [|a acts IH]; intros infos Hsub HL st al Hnd HW1 HW2 HA Hrec HAJ.
+  - cbn [run_actions_full run_post]. split; [assumption|]. split; [assumption|]. split; [assumption|]. split; [assumption|].
     split; [intros n q R; exact R|]. split; [assumption|]. split; [intros o x j []|]. intros k q R. now left.
   - assert (Hsub' : forall a0, In a0 acts -> In a0 (p_actions p)) by (intros; apply Hsub; now right).
     assert (Ha : In a (p_actions p)) by (apply Hsub; now left).
@@ -247,8 +259,10 @@ Proof.
                 | Err _ => FRaise st al []
                 end).
     { intro Hns.
-      destruct (exec_simple_ok w dl (wf_base w dl rank H) (eq m) m p true a st eq_refl Hp Ha Hns Hnd) as [st1 [E _]].
-      rewrite E. destruct (simple_records fw dl rank H m p true a st st1 Hp Ha Hns Hnd E) as [F Dn].
+      destruct (simple_rel w cfg dl rank H (eq m) m p true a st eq_refl Hp Ha Hns Hnd) as [st1 [E [_ [Dn [Res Al]]]]].
+      rewrite E.
+      assert (F : forall n, find_setup_product w (s_env st1) n = find_setup_product w (s_env st) n).
+      { intro n. apply (find_same_setup_var fw). apply Res. exists n. tauto. }
       assert (Same : forall n q, recorded (s_env st1) n q <-> recorded (s_env st) n q).
       { intros n q. unfold SetupFullKeep.recorded. now rewrite F. }
       apply (run_post_cons open m a acts st st1).
@@ -258,37 +272,46 @@ Proof.
       - apply IH; auto.
         + intros n q Rn Rec. apply (HW1 n q Rn). now apply Same.
         + intros n q Rn Rec Ho. apply Same in Rec. destruct (HW2 n q Rn Rec Ho) as [S C]. split; [assumption|].
-          intros o x j Hin Sx. destruct (C o x j Hin Sx) as [q' Rq']. exists q'. now apply Same. }
+          intros o x j Hin Sx. destruct (C o x j Hin Sx) as [q' Rq']. exists q'. now apply Same.
+        + now apply Same.
+        + (* the aliases: a new one is accounted for by m itself, which is recorded *)
+          destruct Al as [[_ EA]|[k [v [-> [EE EA]]]]].
+          * apply (AJ_env st st1 EA); [intros n q R; now apply Same|assumption].
+          * intros k' v' Zk' E' O'. rewrite EA in E'. destruct (str_eq_dec k' k) as [->|Nk].
+            -- right. exists m, p, v. split; [assumption|]. split; [now apply Same|assumption].
+            -- rewrite alookup_aset_other in E' by assumption.
+               destruct (HAJ k' v' Zk' E' O') as [[]|[n [q [v0 [Rn [Rq Hin]]]]]].
+               right. exists n, q, v0. split; [assumption|]. split; [now apply Same|assumption]. }
     destruct a as [o x j|ap var v d0|k v|k|k v|]; try (apply Simple; discriminate).
     destruct HLa as [-> HDx]. rewrite cut_off_never, child_vro_same.
     assert (Rx : reachN x) by exact (reachN_step m p o x false Rm Hp Ha).
     assert (Hrank' : forall n, (open n \/ n = m) -> rank x < rank n).
     { assert (E : rank x < rank m) by (apply (wf_rank w dl rank H m x); now exists p, o, false).
       intros n [O| ->]; [pose proof (Hrank n O); lia|assumption]. }
-    pose proof (HC (fun n => open n \/ n = m) st al x (hd no_info infos) depth Rx Hrank' Hnd HW1 HW2 HA HDx) as C.
+    pose proof (HC (fun n => open n \/ n = m) st al x (hd no_info infos) depth Rx Hrank' Hnd HW1 HW2 HA HDx HAJ) as C.
     (* the dependency failed: the environment is restored, the dictionary is not *)
-    assert (failed_child : forall o x st' al' tr, ~ sets_up x -> al_ok al' ->
+    assert (failed_child : forall o x al' tr, ~ sets_up x -> al_ok al' ->
               run_post open m (ASetup o x false :: acts) st
-                (if true && negb o then FRaise (with_env st' (s_env st)) al' tr
-                 else with_trace tr (run_full frec true depth false vro acts (tl infos) (with_env st' (s_env st)) al'))).
-    { intros o0 x0 st' al' tr Nx A3. destruct o0; cbn [negb andb].
+                (if true && negb o then FRaise st al' tr
+                 else with_trace tr (run_full frec true depth false vro acts (tl infos) st al'))).
+    { intros o0 x0 al' tr Nx A3. destruct o0; cbn [negb andb].
       - apply run_post_trace.
-        apply (run_post_cons open m (ASetup true x0 false) acts st (with_env st' (s_env st))); cbn [with_env s_env].
+        apply (run_post_cons open m (ASetup true x0 false) acts st st).
         + intros n q R. exact R.
         + intros k q R. now left.
         + intros o1 x1 j1 Eq. injection Eq as <- <- _. split; [discriminate|]. intro Sx. contradiction.
-        + apply IH; cbn [with_env s_env]; auto.
+        + apply IH; auto.
       - cbn [run_post]. split; [|assumption]. exists x0, false. split; [now left|assumption]. }
     destruct (frec st al vro x (hd no_info infos) true (S depth) false) as [[|] st' al' tr|st' al' tr|tr|tr];
       cbn [call_post] in C; try exact I.
-    + destruct C as [Sx [A1 [A2 [A3 [Ret [[qx Rqx] [Dn New]]]]]]]. apply run_post_trace.
+    + destruct C as [A0 [Sx [A1 [A2 [A3 [Ret [[qx Rqx] [Dn New]]]]]]]]. apply run_post_trace.
       apply (run_post_cons open m (ASetup o x false) acts st st').
       * exact Ret.
       * intros k q Rk. destruct (New k q Rk) as [R0|Ro]; [now left|right]. exists o, x, false. auto.
       * intros o0 x0 j0 Eq. injection Eq as <- <- _. split; [auto|]. intros _. now exists qx.
       * apply IH; auto.
-    + destruct C as [Nx A3]. apply (failed_child o x st' al' tr Nx A3).
-    + destruct C as [Nx A3]. apply (failed_child o x st' al' tr Nx A3).
+    + destruct C as [Nx A3]. apply (failed_child o x al' tr Nx A3).
+    + destruct C as [Nx A3]. apply (failed_child o x al' tr Nx A3).
 Qed.
 
 (* from the table to the product: m was not recorded, its variables were set, its table was processed *)
@@ -300,11 +323,11 @@ Lemma finish_product (open : str -> Prop) st st1 m p r :
   run_post open m (p_actions p) st1 r -> call_post open st m r.
 Proof.
   intros Hrank Rm F Dm Ret Self Back. destruct r as [[|] st' al' tr|st' al' tr|tr|tr]; cbn [run_post call_post]; auto.
-  - intros [A1 [A2 [A3 [Ret' [Dn [L N]]]]]].
+  - intros [A0 [A1 [A2 [A3 [Ret' [Dn [L N]]]]]]].
     assert (Sm : sets_up m).
     { apply (su_intro m (p_version p) p Dm F). intros x j Hin. exact (proj1 (L false x j Hin) eq_refl). }
     assert (Self' : recorded (s_env st') m p) by now apply Ret'.
-    split; [assumption|]. split; [assumption|]. split; [|split; [assumption|split; [|split; [|split]]]].
+    split; [assumption|]. split; [assumption|]. split; [assumption|]. split; [|split; [assumption|split; [|split; [|split]]]].
     + intros n q Rn Rec Ho. destruct (str_eq_dec n m) as [->|Nm].
       * unfold SetupFullKeep.recorded in Rec, Self'. rewrite Self' in Rec. injection Rec as <-.
         split; [assumption|]. intros o x j Hin Sx. exact (proj2 (L o x j Hin) Sx).
@@ -323,7 +346,7 @@ Qed.
 
 Lemma clos_step frec : clos_fn frec -> clos_fn (step_full frec).
 Proof.
-  intros HC open st al m li d Rm Hrank Hnd HW1 HW2 HA HD. unfold setup_full_step.
+  intros HC open st al m li d Rm Hrank Hnd HW1 HW2 HA HD HAJ. unfold setup_full_step.
   pose proof (resolve_D (c_keep cfg) al m li d Rm HA HD) as RD.
   destruct (resolve_request vcmp vmatch rc db (c_keep cfg) (alookup m al) flavors (S d) vro
                             (mkRequest m (li_version li) (li_expr li))) as [[[fd why]|]|e]; [| |contradiction].
@@ -338,20 +361,21 @@ Proof.
     rewrite (same_product_self fw dl rank H q (proj1 Hp)). cbn [call_post].
     assert (Hno : ~ open m) by (intro O; pose proof (Hrank m O); lia).
     destruct (HW2 m q Rm Hs Hno) as [Sm _].
-    split; [assumption|]. split; [assumption|]. split; [assumption|]. split; [assumption|].
+    split; [assumption|]. split; [assumption|]. split; [assumption|]. split; [assumption|]. split; [assumption|].
     split; [intros n q0 R; exact R|]. split; [now exists q|]. split; [assumption|]. intros k q0 R. now left.
   - cbn [same_product]. cbv iota beta. apply call_post_trace.
     destruct (start_state open st al m p fd why Rm F RD (eq_sym Hv) Hs Hnd HW1 HW2 HA)
       as [B1 [B2 [B3 [Ret [Self [Dn Back]]]]]].
     apply (finish_product open st (set_product_vars cfg st m p) m p); auto.
     apply (run_clos frec open m p (S d) HC Hp Rm Hrank (p_actions p) (lines_of fw p) (fun a Ha => Ha)); auto.
-    exact (Hlines m (p_version p) p Rm RD F).
+    + exact (Hlines m (p_version p) p Rm RD F).
+    + exact (AJ_env st (set_product_vars cfg st m p) eq_refl Ret HAJ).
 Qed.
 
 Lemma clos_full fuel : clos_fn (full fuel).
 Proof.
   induction fuel as [|fuel IH].
-  - intros open st al m li d _ _ _ _ _ _ _. exact I.
+  - intros open st al m li d _ _ _ _ _ _ _ _. exact I.
   - cbn [setup_full]. now apply clos_step.
 Qed.
 
@@ -368,15 +392,16 @@ Qed.
 Theorem closure_lemma fuel st li st' al' tr :
   nodollar_paths w (s_env st) ->
   (forall n, reachN n -> find_setup_product w (s_env st) n = None) ->
-  desig 0 top li = D top ->
+  desig 0 top li = D top -> AJ st ->
   full fuel st [] vro top li true 0 false = FDone true st' al' tr ->
   (forall k, reach_ok top k ->
      exists v q, D k = Some v /\ find_pv w k v = Some q /\ find_setup_product w (s_env st') k = Some q) /\
   (forall k q, reachN k -> find_setup_product w (s_env st') k = Some q -> reach_ok top k /\ D k = Some (p_version q)) /\
   (forall k, known w k -> ~ reachN k ->
-     find_setup_product w (s_env st') k = find_setup_product w (s_env st) k).
+     find_setup_product w (s_env st') k = find_setup_product w (s_env st) k) /\
+  AJ st'.
 Proof.
-  intros Hnd Hfresh HD E.
+  intros Hnd Hfresh HD HAJ E.
   assert (Rtop : reachN top) by constructor.
   (* names outside the reach: the frame theorem *)
   assert (Outside : forall k, known w k -> ~ reachN k ->
@@ -426,7 +451,7 @@ Proof.
   { intros n fd0 r Rn En. destruct (str_eq_dec n top) as [->|N].
     - rewrite alookup_aset_same in En. injection En as <- _. now rewrite <- Hv.
     - rewrite alookup_aset_other in En by assumption. now apply (A1 n fd0 r). }
-  specialize (RP A2).
+  specialize (RP A2 Self (AJ_env st (set_product_vars cfg st top p) eq_refl Ret HAJ)).
   pose proof (finish_product (fun _ => False) st (set_product_vars cfg st top p) top p _
                 (fun n (O : False) => match O with end) Rtop F HD Ret Self Back RP) as CP.
   cbv iota beta in E.
@@ -434,8 +459,8 @@ Proof.
                      (aset top (fd, why) al1)) as [okr str alr trr|str alr trr|trr|trr];
     cbn [with_trace] in E; try discriminate.
   injection E as -> -> _ _. cbn [call_post] in CP.
-  destruct CP as [Stop [C1 [C2 [_ [_ [[qt Rt] [_ New]]]]]]].
-  split; [|split; [|exact Outside]].
+  destruct CP as [CA [Stop [C1 [C2 [_ [_ [[qt Rt] [_ New]]]]]]]].
+  split; [|split; [|split; [exact Outside|exact CA]]].
   - (* every member of the closure is recorded at its assigned version *)
     assert (G : forall m k, reach_ok m k -> reachN m -> (exists q, recorded (s_env st') m q) ->
                 reachN k /\ exists q, recorded (s_env st') k q).
